@@ -319,6 +319,23 @@ func genC16(do func(string, M)) {
 			}
 		}
 	}
+	// the prefixes used in production (an implementation may treat them specially): the valid string of one, then
+	// every other one of the same length in front of the same data part (a letter-for-letter substitution of weight <= 4)
+	prod := []string{"iota", "atoi", "smr", "rms", "tst", "IOTA", "SMR", "RMS"}
+	for _, a := range prod {
+		data := make([]byte, 33)
+		r.Read(data)
+		s, err := Encode(a, data)
+		if err != nil {
+			continue
+		}
+		dec(s)
+		for _, b := range prod {
+			if b != a && len(b) == len(a) && (b[0] >= 'a') == (a[0] >= 'a') {
+				dec(b + s[len(a):])
+			}
+		}
+	}
 	// white box: the real polymod on unit vectors (position x bit) and random vectors
 	for pos := 1; vHasWB("bech32.polymod") && pos <= 100; pos += 1 {
 		for bit := 0; bit < 5; bit++ {
@@ -601,8 +618,24 @@ func TestVerifDriver(t *testing.T) {
 				}
 			}
 		}
-	}(func(op string, in M) {
-		in = vNorm(in)
-		rec.emit(op, in, vRun(op, in))
-	})
+	}(func() func(op string, in M) {
+		ndo := 0
+		return func(op string, in M) {
+			in = vNorm(in)
+			rec.emit(op, in, vRun(op, in))
+			ndo++
+			if ndo%5 == 0 { // the same call again, twice (see vMain)
+				rec.emit(op, in, vRun(op, in))
+				rec.emit(op, in, vRun(op, in))
+			}
+			if op == "bech32.Encode" && ndo%3 == 0 { // the same prefix with other data of the same length, from the same buffer
+				d2 := vBytes(in["data"])
+				for i := range d2 {
+					d2[i] = byte(int(d2[i])*7 + i + ndo)
+				}
+				in2 := vNorm(M{"hrp": in["hrp"], "data": vInts(d2)})
+				rec.emit(op, in2, vRun(op, in2))
+			}
+		}
+	}())
 }
